@@ -1,6 +1,7 @@
 package dotgit
 
 import (
+	"io"
 	"io/fs"
 	"os"
 	"path/filepath"
@@ -91,8 +92,49 @@ func (fs *RepositoryFilesystem) Stat(filename string) (os.FileInfo, error) {
 }
 
 // Rename renames a file in the appropriate filesystem.
+//
+// The two names may belong to different filesystems: the temporary file
+// PackRefs and RemoveRef write is created in the worktree's own git
+// directory, the packed-refs file it replaces lives in the common
+// directory. Routing by the old name alone would leave the new file in the
+// worktree's git directory, where nobody reads it.
 func (fs *RepositoryFilesystem) Rename(oldpath, newpath string) error {
-	return fs.mapToRepositoryFsByPath(oldpath).Rename(oldpath, newpath)
+	src, dst := fs.mapToRepositoryFsByPath(oldpath), fs.mapToRepositoryFsByPath(newpath)
+	if src == dst {
+		return src.Rename(oldpath, newpath)
+	}
+	return renameAcross(src, oldpath, dst, newpath)
+}
+
+// renameAcross moves oldpath of src to newpath of dst. The content is first
+// copied to a temporary file next to newpath and renamed from there, so
+// newpath is replaced in one step like with a plain rename.
+func renameAcross(src billy.Filesystem, oldpath string, dst billy.Filesystem, newpath string) (err error) {
+	in, err := src.Open(oldpath)
+	if err != nil {
+		return err
+	}
+	defer func() { _ = in.Close() }()
+
+	tmp, err := dst.TempFile(filepath.Dir(newpath), "._"+filepath.Base(newpath))
+	if err != nil {
+		return err
+	}
+	tmpName := tmp.Name()
+	if _, err = io.Copy(tmp, in); err != nil {
+		_ = tmp.Close()
+		_ = dst.Remove(tmpName)
+		return err
+	}
+	if err = tmp.Close(); err != nil {
+		_ = dst.Remove(tmpName)
+		return err
+	}
+	if err = dst.Rename(tmpName, newpath); err != nil {
+		_ = dst.Remove(tmpName)
+		return err
+	}
+	return src.Remove(oldpath)
 }
 
 // Remove removes a file from the appropriate filesystem.
